@@ -338,6 +338,8 @@ fn c10_o1a_announce_peer_encode() {
 //@ ob: C10.O1e
 //@ tier: quick
 //@ cap: 800
+//@ rss: 0.6
+//@ time: 41
 //@ also: C05
 //@ desc: error message round trip through the wire mirror, both directions: into_serde_message writes the transaction id as exactly 4 big-endian bytes for every u32 id, ro = 1 iff read-only, the error code and the requester ip (6 compact bytes) unchanged; from_serde_message of that mirror value gives back the same transaction id, read-only flag, code and ip
 //@ bounds: symbolic u32 tid, read_only, i32 code, requester ip absent or any ip:port; empty description; unwind 8
